@@ -143,6 +143,69 @@ def _first_error(se):
     return "?"
 
 
+# ------------------------------------------------------------------ level 2: end to end through generated wrappers
+
+def level2_library(name, lang, cfi, debug=False):
+    from ..libgen import libs
+    from ..libgen.libs import F, P
+    n_ = lambda: P("n", "val", "int", role="outlen")
+    fs = [F("ci", "int", [P("s", "cstr_in")]),
+          F("so", "void", [n_(), P("s", "cstr_out", charlen=12)]),
+          F("sio", "void", [n_(), P("s", "cstr_inout")]),
+          F("sres", "cstr", [n_()]),
+          F("sresl", {"kind": "cstr_len", "N": 8}, [n_()])]
+    if lang == "c++":
+        fs += [F("xi", "int", [P("s", "str_cref")]), F("xv", "int", [P("s", "str_val")]), F("xp", "int", [P("s", "str_cptr")]),
+               F("xo", "void", [n_(), P("s", "str_ref_out")]), F("xio", "void", [n_(), P("s", "str_ref_inout")]),
+               F("xpo", "void", [n_(), P("s", "str_ptr_out")]), F("xpio", "void", [n_(), P("s", "str_ptr_inout")]),
+               F("xres", "str_cref", [n_()]), F("xval", "str_val", [n_()]),
+               F("xresl", {"kind": "str_cref_len", "N": 8}, [n_()]), F("xown", {"kind": "str_ptr_own"}, [n_()])]
+    for f in fs:
+        f["shape"] = "c10"
+        f.setdefault("fid", f["name"])
+    lib = {"name": name, "language": lang, "functions": fs, "format": {}, "namespace": None, "wraps": ["c", "fortran"],
+           "options": {"wrap_c": True, "wrap_fortran": True, "wrap_python": False, "wrap_lua": False, "F_CFI": cfi, "debug": debug}}
+    libs.assign_names(lib)
+    return lib
+
+
+def level2_plan(lib, N):
+    """Exhaustive over declared Fortran length x C string length (or trimmed length)."""
+    from ..libgen import ir
+    PAT, plan = ir.PAT, []
+    for fi, f in enumerate(lib["functions"]):
+        kinds = [p["kind"] for p in f["params"]]
+        sp = next((p for p in f["params"] if p["kind"] in ir.STR_KINDS), None)
+        def add(args, flen=None):
+            plan.append({"f": fi, "variant": 0, "args": args, "flen": flen or {}, "via": "generic"})
+        if sp is None:                                   # results
+            hi = N + 2 + (f["ret"].get("N", 0) if f["ret"]["kind"].endswith("_len") else 0)
+            lo = -1 if f["ret"]["kind"] in ("cstr", "cstr_len") else 0
+            for n in range(lo, hi + 1):
+                add({"n": n})
+        elif sp["kind"] in ("cstr_in", "str_cref", "str_val", "str_cptr"):
+            for L in range(0, N + 1):
+                for t in range(0, L + 1):
+                    add({sp["name"]: PAT[:t] + " " * (L - t)})
+        elif sp["kind"] == "cstr_out":
+            # char* intent(out): the Fortran variable itself is the buffer the library writes to (docs/input.rst,
+            # charlen: "the buffer argument is supplied by the user"), so it is at least charlen long
+            K = sp["charlen"]
+            for L in range(K, K + N + 1):
+                for n in range(0, K + 2):
+                    add({"n": n}, {sp["name"]: L})
+        elif sp["kind"] in ("str_ref_out", "str_ptr_out"):
+            for L in range(0, N + 3):
+                for n in range(0, N + 3):
+                    add({"n": n}, {sp["name"]: L})
+        else:                                            # inout
+            for L in range(0, N + 1):
+                for t in range(0, L + 1):
+                    for n in sorted({0, t, max(t - 1, 0), L, L + 2}):
+                        add({"n": n, sp["name"]: PAT[3:3 + t]}, {sp["name"]: L})
+    return plan
+
+
 def main(rec):
     thorough = common.tier() == "thorough"
     N = 14 if thorough else 10
@@ -168,12 +231,42 @@ def main(rec):
             rec.samples.append(rr["sample"])
         for v in rr["violations"]:
             rec.violation(v["mech"], v["detail"], c)
+    # ---- level 2
+    from . import c01
+    N2 = 10 if thorough else 7
+    cases2 = []
+    for lang in ("c", "c++"):
+        for cfi in (False, True):
+            for dbg in ((False, True) if thorough else (False,)):
+                lib = level2_library("s%s%s%s" % ("x" if lang == "c++" else "c", "f" if cfi else "", "d" if dbg else ""), lang, cfi, dbg)
+                cases2.append({"lib": lib, "plan": level2_plan(lib, N2)})
+    res2 = pool.run_cases("vf.checks.c01", cases2, func="run_library", timeout=3600)
+    for c, rr in zip(cases2, res2):
+        if "stats" not in rr:
+            workloads.bad_run(rec, {"name": c["lib"]["name"]}, rr)
+            continue
+        if rr.get("harness_error"):
+            rec.inconclusive = rr["harness_error"][:300]
+        n = rr["stats"].get("calls_compared", 0)
+        rec.count("level2_calls_compared", n)
+        rec.count("level2_recv_records", rr["stats"].get("recv_records", 0))
+        rec.evaluations += n
+        total += n
+        if rr.get("sample") and len(rec.samples) < 4:
+            rec.samples.append(rr["sample"])
+        for v in rr["violations"]:
+            if v["mech"].startswith("HARNESS"):
+                rec.inconclusive = "harness self-check failed: %s" % v["detail"][:300]
+                continue
+            cfg = "%s%s" % (c["lib"]["language"], "+cfi" if c["lib"]["options"]["F_CFI"] else "")
+            rec.violation("level2:%s:%s" % (re.sub(r":?\b[A-Z]+_\w+", "", v["mech"]), cfg), v["detail"],
+                          {"lib": c["lib"]["name"], "language": c["lib"]["language"], "options": c["lib"]["options"]})
     # distinct calls: the driver enumerates parameter tuples without repetition
     rec.distinct_override = total
     rec.extra["distinct_calls_enumerated"] = total
     rec.extra["exhaustive"] = True
-    if total == 0:
-        rec.inconclusive = rec.inconclusive or "no helper call was made"
+    if total == 0 or rec.counters.get("level2_recv_records", 0) == 0:
+        rec.inconclusive = rec.inconclusive or "no helper call was made / no end-to-end call was observed"
 
 
 def replay(bundle):
